@@ -239,7 +239,9 @@ impl Sub for RevComp {
             let _ = pssm.to_discrete();
             let mut fwd: StripedSequence<Dna, U32> = Pipeline::<Dna, _>::generic().stripe(&syms::<Dna>(&idx0));
             fwd.configure(&pssm);
-            let _g = case.arm.force();
+            // the scanner parts run on the AVX2 arm: the scalar 8-bit kernel of the other arms is the open finding
+            // KF06 (wraps / panics on windows summing above 255) and is not this property's subject
+            let _g = Arm::Avx2.force();
             let mut sc = lightmotif::scan::Scanner::new(&pssm, &fwd);
             sc.threshold(pssm.max_score() / 2.0);
             let _ = sc.next();
@@ -295,7 +297,7 @@ impl Sub for RevComp {
                 return Verdict::Fail(Failure::new("scoring:discrete-of-rc", "rc(pssm).to_discrete() differs from the discrete matrix of an equal, freshly built scoring matrix".to_string()));
             }
             {
-                let _g = case.arm.force();
+                let _g = Arm::Avx2.force();
                 let mut sorted: Vec<f32> = g.iter().cloned().filter(|x| x.is_finite()).collect();
                 sorted.sort_by(|a, b| a.partial_cmp(b).unwrap());
                 let t = if sorted.is_empty() { 0.0 } else { sorted[sorted.len() * 3 / 4] };
